@@ -466,9 +466,15 @@ impl ProtocolStage for DataRefs {
         for (remote, refs) in &self.remotes {
             let mut signed = HashSet::with_capacity(refs.refs.len());
             for (name, tip) in refs.iter() {
-                let tracking: Namespaced<'_> = Qualified::from_refstr(name)
+                // N.b. a signed name which is not a qualified reference name
+                // is skipped, exactly as in `wants_haves`; the validation of
+                // the remote then reports it as missing.
+                let Some(tracking): Option<Namespaced<'_>> = Qualified::from_refstr(name)
                     .and_then(|q| refs::ReceivedRefname::remote(*remote, q).to_namespaced())
-                    .expect("we checked sigrefs well-formedness in wants_refs already");
+                else {
+                    log::warn!(target: "fetch", "Skipping invalid reference name '{name}' signed by {remote}");
+                    continue;
+                };
                 signed.insert(tracking.clone());
                 updates.add(
                     *remote,
